@@ -485,6 +485,10 @@ top:
 		if err != nil {
 			return err
 		}
+		if r == '*' {
+			// another '*': it may still be the one before the closing '/'
+			return nil
+		}
 		lexer.state = LexerCommentBlock
 		goto writeRuneToBuffer
 
